@@ -121,7 +121,11 @@ func receive(data []byte, out net.Conn) {
 	var cblen uint16
 	binary.Read(buf, binary.LittleEndian, &cblen)
 	pkt := make([]byte, cblen)
-	binary.Read(buf, binary.LittleEndian, &pkt)
+	if err := binary.Read(buf, binary.LittleEndian, &pkt); err != nil {
+		// the packet carries fewer bytes than it declares: do not invent data
+		log.Printf("Data packet shorter than its declared length %d: %s", cblen, err)
+		return
+	}
 
 	out.Write(pkt)
 }
